@@ -295,6 +295,11 @@ def sigFromPy(pobj):
             return 'av'
 
     elif isinstance(pobj, tuple):
+        if not pobj:
+            raise MarshallingError(
+                'An empty tuple has no DBus type: a struct must have at '
+                'least one member'
+            )
         return '(' + ''.join(sigFromPy(e) for e in pobj) + ')'
 
     elif isinstance(pobj, dict):
@@ -308,10 +313,16 @@ def sigFromPy(pobj):
                 first = v
             elif type(v) is not vtype:
                 same = False
+        ksig = sigFromPy(k)
+        if len(ksig) != 1 or ksig not in 'ybnqiuxtdsogh':
+            raise MarshallingError(
+                'DBus dictionary keys must be of a basic type. '
+                'Key signature: ' + repr(ksig)
+            )
         if same:
-            return 'a{' + sigFromPy(k) + sigFromPy(first) + '}'
+            return 'a{' + ksig + sigFromPy(first) + '}'
         else:
-            return 'a{' + sigFromPy(k) + 'v}'
+            return 'a{' + ksig + 'v}'
 
     else:
         raise MarshallingError(
